@@ -1,6 +1,6 @@
 (* Model/Run.v — glue between generated correspondence cases and the interpreter models:
    canonical observations and verdict functions.  Definitions only. *)
-From TSG Require Export Model.Strict Model.Regex.
+From TSG Require Export Model.Strict Model.Regex Spec.RefSem.
 From TSG Require Import Model.Stdlib.
 
 (* canonical view of a graph: attributes sorted by name *)
@@ -63,8 +63,14 @@ Definition default_fuel : nat := 300.
 Definition graph_of {E} (r : outcome E (sstate * polls)) : outcome E graph :=
   match r with Ok (s, _) => Ok (s_graph s) | Err e => Err e | Panic p => Panic p | OutOfFuel => OutOfFuel end.
 
+(* both the implementation-shaped model and the reference semantics are compared with the implementation
+   (code 8x: the reference disagrees although the model of strict.rs agrees) *)
 Definition c01_verdict (t : tree) (fl : file) (rxs : list regex) (tbl : list (str * regex)) (supplied : globals) (matches : list (list qmatch)) (x : expect) : N :=
-  compare_outcome (graph_of (run_strict t fl config0 supplied None rxs rx_captures (the_call t tbl) default_fuel matches [])) x.
+  match compare_outcome (graph_of (run_strict t fl config0 supplied None rxs rx_captures (the_call t tbl) default_fuel matches [])) x with
+  | 0 => match compare_outcome (ref_run t fl supplied rxs rx_captures (the_call t tbl) default_fuel matches []) x with
+         | 0 => 0 | c => 80 + c end
+  | c => c
+  end.
 Definition c01_detail (t : tree) (fl : file) (rxs : list regex) (tbl : list (str * regex)) (supplied : globals) (matches : list (list qmatch)) :=
   match run_strict t fl config0 supplied None rxs rx_captures (the_call t tbl) default_fuel matches [] with
   | Ok (s, _) => Ok (canon_graph (s_graph s)) | Err e => Err e | Panic p => Panic p | OutOfFuel => OutOfFuel end.
